@@ -289,10 +289,15 @@ def run(ctx, model=None):
         check_board(ctx, (0, 1, 3, 0.3, m, False), model, force_random=lambda k, r: 0.0, tag="u=0.0")
         check_board(ctx, (0, 1, 3, 0.3, m, False), model, force_random=lambda k, r: 1 - 2 ** -53, tag="u=1-eps")
         check_board(ctx, (0, 2, 2, 0.3, m, True), model, force_random=lambda k, r: 5e-324 if k % 3 == 0 else r, tag="u=tiny")
+    # maximum rewards beyond the exponent range of a double (2.0**1024 overflows): accepted parameter sets all the same
+    for m in (1022, 1023, 1024, 1080, 5000):
+        check_board(ctx, (3, 2, 2, 0.3, m, False), model)
+        check_main_board(ctx, 3, 2, 2, 0.3, m, True)
     # parameter checks: every boundary value of every check, one at a time, plus pairs
     good = [3, 2, 2, 0.1, 0.1, 0.3, 0.1, 6]
     for pos in range(8):
-        pool = INTS if pos in (0, 1, 2, 7) else PROBS
+        pool = (INTS + ([-10 ** 6, -1076, -1075, 1023, 1024, 10 ** 6] if pos == 7 else [-10 ** 6, 10 ** 6] if pos == 0 else [-10 ** 6])) \
+            if pos in (0, 1, 2, 7) else PROBS
         for v in pool:
             vals = list(good)
             vals[pos] = v
